@@ -200,7 +200,7 @@ Definition insert_free_block (t : tlsf) (b : blk) : option tlsf :=
   let l := list_at t idx in
   let lists' := update_nth (Z.to_nat idx) (fun _ => b_off b :: l) (t_lists t) in
   (* ghost fields are reset: a free block stands for no request *)
-  let freeb := mkBlk (b_off b) (b_size b) true (b_tag b) 0 0 1 in
+  let freeb := mkBlk (b_off b) (b_size b) true None 0 0 1 in
   let chain' := replace_blk (b_off b) freeb (t_chain t) in
   let '(bm', inner') :=
     match l with
